@@ -16,14 +16,15 @@ import (
 // system contract obeying its discipline (T5) and adversaries that call anything with anything.
 
 type WalkOpts struct {
-	Shards     uint32
-	Steps      int
-	Hostile    int // percent of steps made by the adversary
-	GasMap     map[string]map[string]uint64
-	NoSysDest  bool // keep the system account out as a transfer destination (T7)
-	MeasureAll bool
-	OnLeg      func(u *gen.Universe, m *Mon, l *node.Leg)
-	Setup      func(u *gen.Universe, m *Mon)
+	Shards        uint32
+	Steps         int
+	Hostile       int // percent of steps made by the adversary
+	GasMap        map[string]map[string]uint64
+	NoSysDest     bool // keep the system account out as a transfer destination (T7)
+	MeasureAll    bool
+	RecordPayable bool
+	OnLeg         func(u *gen.Universe, m *Mon, l *node.Leg)
+	Setup         func(u *gen.Universe, m *Mon)
 }
 
 type Walk struct {
@@ -50,6 +51,7 @@ func NewWalk(r *harness.Rand, rep *harness.Reporter, o WalkOpts, enabled ...stri
 		m.Registered = append(m.Registered, t.ID)
 	}
 	m.Attach(u.N)
+	u.N.RecordPayable = o.RecordPayable
 	w := &Walk{U: u, M: m, R: r, O: o, creator: map[string][]byte{}, handing: map[string]bool{}}
 	if o.OnLeg != nil {
 		u.N.Observers = append(u.N.Observers, func(n *node.Node, l *node.Leg) { o.OnLeg(u, m, l) })
